@@ -4,6 +4,7 @@ import contextlib
 import hashlib
 import io
 import json
+import math
 import multiprocessing
 import os
 import shutil
@@ -211,9 +212,11 @@ class Valuation:
     """proxy -> concrete number.  Constants the model constrains take the model's value; every
     other payload word gets its own distinct dyadic value, so that a misplaced word is visible."""
 
-    def __init__(self, model=None, relevant=None):
+    def __init__(self, model=None, relevant=None, cast_payload=False, wide_text=False):
         self.model = model
         self.relevant = relevant
+        self.cast_payload = cast_payload
+        self.wide_text = wide_text
         self.defaults = {}
         self.cache = {}
         self.decls = {}
@@ -239,6 +242,13 @@ class Valuation:
         if v is None:
             k = int(hashlib.sha1(name.encode()).hexdigest()[:6], 16)
             v = 1.0 + (k % 1000003) / 1048576.0
+            if self.cast_payload:
+                v = 16777217.75 + 2 * (k % 4000000)
+            if self.wide_text:
+                # negative with a three-digit exponent: the longest texts a float64 has (24 characters)
+                v = -(1.0 + (k % 1000003) / 1048576.0) * 1e-112
+                while len(repr(v)) < 24:
+                    v = math.nextafter(v, 0.0)
             if e.sort().kind() == z3.Z3_INT_SORT:
                 v = k % 7
             self.defaults[name] = v
